@@ -15,4 +15,16 @@ s=open('/verif/DESIGN.md').read()
 a='<!-- status-table:begin -->'; b='<!-- status-table:end -->'
 if a in s:
     s=s[:s.index(a)+len(a)]+'\n'+table+'\n'+s[s.index(b):]
+rows=[]
+for d in sorted(glob.glob('/verif/seeded/*/')):
+    m=json.load(open(d+'meta.json'))
+    cb=m['caught_by'][0].split('/',1)[1] if m['caught_by'] else '-'
+    n=len(m['caught_by'])
+    w=m['caught_when']
+    when='as registered' if (w.startswith('as registered') or w.startswith('initially')) else 'after strengthening'
+    rows.append(f"| {m['id']} | `{cb}`{' (+%d more)'%(n-1) if n>1 else ''} | {when} |")
+st="| seeded change | first obligation that fails | caught |\n|---|---|---|\n"+'\n'.join(rows)
+a='<!-- seeded-table:begin -->'; b='<!-- seeded-table:end -->'
+if a in s:
+    s=s[:s.index(a)+len(a)]+'\n'+st+'\n'+s[s.index(b):]
 open('/verif/DESIGN.md','w').write(s)
